@@ -237,7 +237,7 @@ claim('C04',
       'failing close(). D7: a failing exchange (device error reply, unexpected reply, timeout, '
       'USB exception) ends with an error recorded and the failure value - the verdicts of the '
       'C05 exchange analysis on the primitives, taken over per construct (skipped when that '
-      'analysis cannot be carried out on the tree); likewise the handshake verdicts of the C15 '
+      'analysis cannot be carried out on the tree - the check then answers cannot-conclude rather than passing on the latch rules alone); likewise the handshake verdicts of the C15 '
       'connect analysis (True only for a verified device whose version passed the minimum test, '
       'every other handshake records an error, an earlier error survives connect) - '
       '"unsupported firmware" is the fifth kind of error and only connect records it. '
